@@ -585,8 +585,13 @@ fn pow_ref(a: Q, n: BigRational) -> Result<Q, RefErr> {
         return Err(RefErr::NonIntegerPower);
     }
     let n: i64 = n.to_integer().to_string().parse().map_err(|_| RefErr::Unspecified("huge exponent"))?;
-    if n.unsigned_abs() > 100_000 {
+    if n.unsigned_abs() > 1024 {
         return Err(RefErr::Unspecified("huge exponent"));
+    }
+    // size guard: the exact result would have more than ~200k bits
+    let bits = a.si.numer().bits().max(a.si.denom().bits());
+    if bits.saturating_mul(n.unsigned_abs()) > 200_000 {
+        return Err(RefErr::Unspecified("result too large"));
     }
     if n < 0 && a.si.is_zero() {
         return Err(RefErr::DivZero);
